@@ -112,3 +112,8 @@ CASES += [
     {"name": "receive buffer allocated per item under another name", "kind": "twin", "edits": [
         (_PAR20, _RB_OLD, "                        recvbuf = numpy.empty(data_shape, dtype=data_type)\n                        data = recvbuf\n", 1)]},
 ]
+
+CASES += [
+    {"name": "receive buffer allocated per item with numpy.empty", "kind": "twin", "edits": [
+        (_PAR20, _RB_OLD, "                        data = numpy.empty(data_shape, dtype=data_type)\n", 1)]},
+]
